@@ -83,6 +83,7 @@ func (o *Opaque) msg() []Value {
 	}
 	return out
 }
+
 type Tuple []Value
 
 func (s *Slice) Len() int { return s.Hi - s.Lo }
